@@ -208,6 +208,12 @@ func genC02(g *Gen, idx int) *Plan {
 			p.Broker.AnswerDelayMs = g.Range(20, 300)
 		}
 	}
+	if g.Bool(0.2) {
+		// the broker refuses some of the subscriptions (SUBACK 0x80): a refused SUBSCRIBE tells the client
+		// no topic id, whatever the gateway had reserved for it
+		p.Family = "C02-gw-refused-subscriptions"
+		p.Broker.SubackCodes = [][]byte{{0x80}, {0x80, 0}, {0, 0x80, 1}, {0x80, 0x80, 2}}[g.Intn(4)]
+	}
 	p.Peers = []PeerPlan{{Name: "p1", Ops: sg.ops}}
 	p.Cfg.HorizonMs = start + 6000 + 6000
 	return p
